@@ -246,6 +246,12 @@ def run_batch(prop: str, tier: str, seed: int, n_runs: int | None, budget_s: flo
                         msg = None
                 elif p.is_alive():
                     continue
+                elif rd.poll():
+                    # the child finished between the two tests above: its result is there
+                    try:
+                        msg = rd.recv()
+                    except (EOFError, OSError):
+                        msg = None
                 p.join(timeout=10)
                 rd.close()
                 del running[sent]
